@@ -23,7 +23,7 @@ TRACE = ("Trace_C16", "Trace_C16.cfg")
 REQUIRED = ["edit-none", "edit-EditData", "edit-AddTimeStep", "edit-EditGlobalAttr", "edit-AddDataVar", "edit-EditGeomValue",
             "edit-ChangeGeomDtype", "edit-ReshapeSameBytes", "edit-RenameGeom", "edit-AttrAdd", "edit-AttrChange",
             "edit-AttrRemove", "edit-ChangeConvention", "route-inproc", "route-copy", "route-reopen", "route-runtime",
-            "route-subproc1", "route-subproc2", "route-fortran", "edit-TransposeValues", "cf1d", "cf2d", "shoc_simple", "shoc_standard", "arakawa", "ugrid"]
+            "route-subproc1", "route-subproc2", "route-fortran", "route-setcoords", "edit-TransposeValues", "cf1d", "cf2d", "shoc_simple", "shoc_standard", "arakawa", "ugrid"]
 RULE = ("one case = one base dataset (every convention) and its variants: the same dataset obtained by five routes (built in "
         "process, deep copy, saved and reopened, attribute strings built at run time, fresh interpreters with two other hash "
         "seeds), four edits of non-geometry content and every kind of single geometry edit (one value, dtype, shape with the "
@@ -131,6 +131,9 @@ def edits_for(w) -> list[dict]:
     base = {"var": var, "pos": 1, "value": 0, "dtype": "", "new": "", "key": "", "class": ""}
     eds = [dict(base, kind=k) for k in ("none", "EditData", "AddTimeStep", "EditGlobalAttr", "AddDataVar")]
     eds.append(dict(base, kind="EditGeomValue", pos=1, value=4242))
+    if w["conv"] in ("cf1d", "cf2d", "shoc_simple") and "xb" in w.get("geom", {}):
+        nm = dict(W.DEFAULT_NAMES[w["conv"]], **(w.get("names") or {}))
+        eds.append(dict(base, kind="EditGeomValue", var=nm.get("lon_bounds", "lon_bnds"), pos=2, value=4343))
     eds.append(dict(base, kind="ChangeGeomDtype", dtype="float32"))
     eds.append(dict(base, kind="AttrAdd", key="comment", value="added"))
     eds.append(dict(base, kind="AttrChange", key="long_name", value="changed"))
@@ -158,6 +161,10 @@ def cases(tier: str, seed: int) -> list[dict]:
                 ev.append({"a": "Key", "edit": ed, "route": "inproc"})
             ev.append({"a": "Key", "edit": edits_for(w)[5], "route": "copy"})      # an edited geometry twice: same key
             ev.append({"a": "Key", "edit": edits_for(w)[0], "route": "fortran"})
+            ev.append({"a": "Key", "edit": edits_for(w)[0], "route": "setcoords"})
+            bnd = [e for e in edits_for(w) if e["kind"] == "EditGeomValue" and e["var"] != edit_target(w)]
+            for e in bnd:      # a bounds value edited, bounds held as data variables / as coordinates
+                ev.append({"a": "Key", "edit": e, "route": "setcoords"})
             if any(e["kind"] == "TransposeValues" for e in edits_for(w)):
                 tv = next(e for e in edits_for(w) if e["kind"] == "TransposeValues")
                 ev.append({"a": "Key", "edit": tv, "route": "fortran"})
@@ -262,6 +269,12 @@ def via_route(w, ds, route, work):
             if da.ndim >= 2:
                 ds = _replace(ds, n, numpy.asfortranarray(numpy.asarray(da.values)), da)
         return ds
+    if route == "setcoords":
+        # the bounds (and any other non-coordinate geometry variable) promoted to coordinate variables, as after
+        # open_dataset(decode_coords="all") or Dataset.set_coords: same variables, same values, same geometry
+        # (the mesh topology variable and the connectivity tables are not coordinates in any sense; they stay data variables)
+        return ds.copy(deep=True).set_coords([n for n in geometry_names(w, ds) if n in ds.data_vars and ds[n].dtype.kind == "f" and "_nodes" not in str(n) and "_edges" not in str(n)
+                                               and "_links" not in str(n) and "_faces" not in str(n)])
     if route == "reopen":
         p = os.path.join(work, "reopen.nc")
         ds.to_netcdf(p)
@@ -314,7 +327,7 @@ def execute(case: dict) -> dict:
             e = dict(e)
             try:
                 if e["route"].startswith("subproc"):
-                    env = dict(os.environ, PYTHONHASHSEED=str(1000 + int(e["route"][-1])), PYTHONPATH=str(tlc.VERIF))
+                    env = dict(os.environ, PYTHONHASHSEED=str(1000 + int(e["route"][-1])), PYTHONPATH=str(tlc.VERIF) + (os.pathsep + os.environ["PYTHONPATH"] if os.environ.get("PYTHONPATH") else ""))
                     p = subprocess.run([sys.executable, "-W", "ignore", "-m", "harness.props.c16", "--variant"],
                                        input=json.dumps({"w": w, "edit": e["edit"]}), capture_output=True, text=True, env=env,
                                        cwd=str(tlc.VERIF), timeout=300)
